@@ -87,10 +87,17 @@ def call_via_session(case):
     tr = {"id": case["id"], "kind": "run", "n": int(n), "s": 0, "results": list(range(1, k + 1)) if inorder else list(range(k, 0, -1)) + [0]}
     if case["sel"] == "idx":
         choice = [e for e in ev if e["ev"] == "Draw" and e["method"] == "choice"]
-        if not choice or any(t["kind"] != "idx" for t in tasks):
+        if not choice:
             return {"id": case["id"], "skip": True, "n": int(n)}
         arr = [int(x) - 1 for x in choice[-1]["result"]]
-        tr.update(arrkind="arr", arr=arr, n=len(arr), tasks=[{"payload": [int(x) - 1 for x in t["sel"]], "start": int(t["start"])} for t in tasks])
+        # the order the sampler chose is what has to be covered, in that order - also by an implementation that hands out row
+        # ranges instead of index arrays when it thinks it can (a range task stands for its rows; its position in the array is
+        # then taken to be where the previous task ended)
+        tl, pos = [], 0
+        for t in tasks:
+            tl.append({"payload": [int(x) - 1 for x in t["sel"]], "start": int(t["start"]) if t["kind"] == "idx" else pos})
+            pos += len(t["sel"])
+        tr.update(arrkind="arr", arr=arr, n=len(arr), tasks=tl)
     else:
         if any(t["kind"] != "range" for t in tasks):
             return {"id": case["id"], "skip": True, "n": int(n)}
